@@ -35,6 +35,7 @@ func init() {
 			"distinct = distinct (stream, entry, kind, offset, read mode) cases",
 		Assumptions: []string{"record boundaries come from the independent grammar parser; streams with messages in single-valued slots carry no partial-content demand"},
 		Run:         runC11,
+		Sub:         func(args []string) { tzSub(args) },
 		Replay: func(raw json.RawMessage) (string, error) {
 			var r c11Replay
 			json.Unmarshal(raw, &r)
@@ -177,6 +178,7 @@ func c11PartialDiff(f *fit.File, want map[uint16][]string) string {
 }
 
 func runC11(w *vx.W) {
+	procsFamily(w, "C11", "chain-faults")
 	crcStreams()
 	streams := []namedStream{sMin12, sMin14, sMin14z, sAct3, sAct3BE, sSet, sZero, sDev, sMonState, sChain2, sChain2b, sChain3, sChainZero, sChainState, sCRChi0, sCRClo0, sCRC00, sChainCRC0, sLongFields, sLongFieldsL, sUnkTail}
 	if !w.Quick() {
